@@ -96,7 +96,13 @@ func copyVal(v interface{}) interface{} {
 func wrapCustom(op *CustomOp, cfgRec *Recorder) eval.Operator {
 	return func(ctx *eval.Ctx, params []eval.Value) (eval.Value, error) {
 		args := toIfaces(params)
-		res, err := op.Fn(args)
+		var res interface{}
+		var err error
+		if op.CtxFn != nil && ctx != nil {
+			res, err = op.CtxFn(ctx, args)
+		} else {
+			res, err = op.Fn(args)
+		}
 		// compile-time invocations (nil ctx) go to the config-level recorder; run-time
 		// invocations only to the per-call recorder of their own context (never to shared state)
 		var rec *Recorder
@@ -132,7 +138,10 @@ type Tracer struct {
 	Steps      int64
 	Jumps      int64
 	Peak       int16
-	Bad        string // first violated assertion
+	Bad        string     // first violated assertion
+	expr       *eval.Expr // the program being followed (set by the first step after Begin); steps of other programs run on
+	// the same context (an operator evaluating a nested expression) are not this tracer's
+	Nested int64
 
 	YieldMask uint32 // yield when rng&mask == 0 (0 = never)
 	rng       uint32
@@ -141,7 +150,7 @@ type Tracer struct {
 
 func NewTracer() *Tracer { return &Tracer{lastPC: -1, chainLast: -2} }
 
-func (t *Tracer) Begin() { t.lastPC = -1; t.chainLast = -2 }
+func (t *Tracer) Begin() { t.lastPC = -1; t.chainLast = -2; t.expr = nil }
 
 // stepAbort is the panic value the step monitor uses to abandon an evaluation whose program position went backwards.
 type stepAbort struct{ why string }
@@ -175,6 +184,12 @@ func stepHook(ctx *eval.Ctx, e *eval.Expr, kind uint8, pc int16, osTop int16, os
 		return
 	}
 	t := tc.t
+	if t.expr == nil {
+		t.expr = e
+	} else if t.expr != e {
+		t.Nested++
+		return
+	}
 	if kind&4 != 0 { // a short-circuit jump (Eval) / climb to the parent (TryEval)
 		if pc == -1 {
 			return
